@@ -153,11 +153,28 @@ def compare(ctx, tag, config, pairs, dist, ref, must, may, kind, describe):
            float(tol[np.argmin(ok)]), describe())))
 
 
+def typed_arrays(pset, dtypes):
+    """(lat, lon) arrays in the dtypes of the case (whole degrees may come
+    as integer arrays); the oracle converts them to long double itself"""
+    out = []
+    for name, dtype in zip(("lat", "lon"), dtypes or ("float64", "float64")):
+        arr = np.array(pset[name], dtype=float)
+        if dtype != "float64":
+            cast = arr.astype(dtype)
+            if not np.array_equal(cast.astype(float), arr):
+                raise RuntimeError("harness: %s values are not whole" % name)
+            arr = cast
+        out.append(arr)
+    return tuple(out)
+
+
 def check_query(case, ctx):
-    build = (np.array(case["build"]["lat"], dtype=float),
-             np.array(case["build"]["lon"], dtype=float))
-    query = (np.array(case["query"]["lat"], dtype=float),
-             np.array(case["query"]["lon"], dtype=float))
+    dtypes = case.get("dtypes") or {}
+    build = typed_arrays(case["build"], dtypes.get("build"))
+    query = typed_arrays(case["query"], dtypes.get("query"))
+    for arr in build + query:
+        if arr.dtype != np.float64:
+            ctx.label("integer-array", "dtype-%s" % arr.dtype)
     nb, nq = build[0].size, query[0].size
     configs = [case["config"]] + list(case.get("variants", []))
     refs = {}
@@ -204,6 +221,17 @@ def check_query(case, ctx):
         else:
             ctx.label("units-" + (UNIT_CLASS[rad["unit"]] if rad["unit"]
                                   else "bare-string"))
+        if rad.get("fmt"):
+            txt = radius_argument(rad)
+            num = rad["fmt"]["num"]
+            if num in ("exp", "EXP"):
+                ctx.label("spelling-exponent")
+            if txt.lstrip().startswith((".", "+.")):
+                ctx.label("spelling-no-leading-zero")
+            if txt.lstrip().startswith("+"):
+                ctx.label("spelling-plus")
+            if txt != txt.strip():
+                ctx.label("spelling-blanks")
         if not config["return_distance"]:
             ctx.label("no-distance")
         ctx.label("shuffle-" + config["shuffle"]["mode"])
@@ -300,6 +328,14 @@ def radius_specs(r_nominal=None):
             unit = draw(st.one_of(
                 st.sampled_from(["km", "m", "cm", "miles", "mi", "ft", "yd"]),
                 st.sampled_from(sorted(UNITS)), st.none()))
+        fmt = draw(P.text_formats()) if style != "number" else None
+        if fmt and fmt["num"] in ("nozero", "plus-nozero"):
+            # '.5 km': prefer a unit in which the number is below one
+            cands = [u for u in ("km", "miles", "mi", "kilometers", "m",
+                                 "meters", "yd", "ft", "feet", "cm")
+                     if 1e-4 <= r * UNITS[u][1] / UNITS[u][0] < 1.0]
+            if cands:
+                unit = draw(st.sampled_from(cands))
         num, den = UNITS[unit or "km"]
         value = float("%.6g" % (r * den / num))
         value = min(value, float("%.6g" % (20000.0 * den / num)))
@@ -307,6 +343,8 @@ def radius_specs(r_nominal=None):
             st.booleans())
         spec = {"value": value, "unit": unit, "style": style,
                 "as_int": as_int}
+        if fmt is not None:
+            spec["fmt"] = fmt
         if style == "number" and draw(st.sampled_from([False, True])):
             # the number as NumPy scalar (same reference radius)
             spec["np_type"] = draw(st.sampled_from(
@@ -636,6 +674,175 @@ def history_cases(draw):
             "config": config, "steps": steps}
 
 
+# --------------------------------------------------------------------------
+# whole-degree grids given as integer arrays
+# --------------------------------------------------------------------------
+@st.composite
+def integer_grid_cases(draw):
+    """Points on whole degrees, lat and / or lon of build and / or query
+    points given as int64 / int32 arrays (np.arange-style grids); radii from
+    centimetres (coincident places) to thousands of km."""
+    lat = st.one_of(st.integers(-90, 90), st.integers(-3, 3),
+                    st.sampled_from([-90, 90, 0, 45]))
+    lon = st.one_of(st.integers(-180, 180), st.integers(-3, 3),
+                    st.sampled_from([-180, 180, 0, 13]))
+    nb = draw(st.integers(1, 12))
+    nq = draw(st.integers(1, 6))
+    b = [(draw(lat), draw(lon)) for _ in range(nb)]
+    q = [draw(st.sampled_from(b)) if draw(st.booleans())
+         else (draw(lat), draw(lon)) for _ in range(nq)]
+    r = draw(st.one_of(
+        st.sampled_from([1e-4, 1e-3, 0.01, 0.5, 50.0, 111.0, 112.0, 160.0,
+                         250.0, 1000.0, 5000.0]),
+        st.floats(-4.0, 4.0).map(lambda e: 10.0 ** e)))
+    radius = draw(radius_specs(r))
+    metric = draw(st.sampled_from(["minkowski"] * 3 + ["haversine"]))
+    kinds = ["float64", "int64", "int64", "int32"]
+    dtypes = {"build": [draw(st.sampled_from(kinds)) for _ in range(2)],
+              "query": [draw(st.sampled_from(kinds)) for _ in range(2)]}
+    config = draw(configs(nb, radius, metric))
+    variants = [draw(configs(nb, draw(st.one_of(st.just(radius),
+                                                 respell(radius)))))
+                for _ in range(draw(st.integers(0, 1)))]
+    return {"build": {"lat": [float(p[0]) for p in b],
+                      "lon": [float(p[1]) for p in b]},
+            "query": {"lat": [float(p[0]) for p in q],
+                      "lon": [float(p[1]) for p in q]},
+            "dtypes": dtypes, "config": config, "variants": variants}
+
+
+# --------------------------------------------------------------------------
+# histories over SEVERAL indexes (built one after the other, queried in any
+# order; equal sizes, so that anything shared between indexes shows)
+# --------------------------------------------------------------------------
+def build_index(case_index):
+    from typhon.geographical import GeoIndex
+    config = case_index["config"]
+    kwargs = {}
+    if config["metric_arg"] is not None:
+        kwargs["metric"] = config["metric_arg"]
+    if config["tree"] is not None:
+        kwargs["tree_class"] = config["tree"]
+    if config["leaf_size"] is not None:
+        kwargs["leaf_size"] = config["leaf_size"]
+    if config["shuffle"]["mode"] == "off":
+        kwargs["shuffle"] = False
+    lat = np.array(case_index["lat"], dtype=float)
+    lon = np.array(case_index["lon"], dtype=float)
+    given = [lat.copy(), lon.copy()]
+    with PinnedShuffle(config["shuffle"]):
+        index = GeoIndex(given[0], given[1], **kwargs)
+    return {"index": index, "given": given, "orig": (lat, lon),
+            "kind": "arc" if config["metric_arg"] == "haversine" else "chord",
+            "config": config}
+
+
+def check_index_history(case, ctx):
+    live = {}
+    ctx.label("index-history", "indexes-%d" % len(case["indexes"]))
+    sizes = [len(ix["lat"]) for ix in case["indexes"]]
+    if len(set(sizes)) < len(sizes):
+        ctx.label("indexes-of-equal-size")
+    last_built = None
+    for k, op in enumerate(case["ops"]):
+        i = op["i"]
+        if op["op"] == "build":
+            live[i] = build_index(case["indexes"][i])
+            if i in [o["i"] for o in case["ops"][:k] if o["op"] == "build"]:
+                ctx.label("rebuild")
+            last_built = i
+            continue
+        ent = live[i]
+        if last_built != i:
+            ctx.label("query-after-other-index-was-built")
+        qset = case["queries"][op["q"]]
+        qlat = np.array(qset["lat"], dtype=float)
+        qlon = np.array(qset["lon"], dtype=float)
+        ref = S.distance_matrix(ent["orig"][0], ent["orig"][1], qlat, qlon,
+                                ent["kind"])
+        r = radius_km_exact(op["radius"])
+        band = S.band_km(r, ref, ent["kind"]) \
+            + S.LD(P.radius_rel_slack(op["radius"])) * r
+        must = ref < r - band
+        may = ref <= r + band
+        given_q = [qlat.copy(), qlon.copy()]
+        arg = radius_argument(op["radius"])
+        if op["return_distance"]:
+            pairs, dist = ent["index"].query(given_q[0], given_q[1], arg)
+        else:
+            pairs = ent["index"].query(given_q[0], given_q[1], arg,
+                                       return_distance=False)
+            dist = None
+        inputs_unchanged(ctx, ent["given"] + given_q,
+                         list(ent["orig"]) + [qlat, qlon], ent["config"])
+
+        def describe(k=k, op=op, r=r):
+            return ("operation %d of a history over %d indexes: %r radius_km="
+                    "%.12g\nindexes=%r\nqueries=%r\nops=%r" % (
+                        k, len(case["indexes"]), op, float(r),
+                        case["indexes"], case["queries"], case["ops"]))
+        tag = "" if op["return_distance"] else "/return_distance=False"
+        compare(ctx, tag, ent["config"], pairs, dist, ref, must, may,
+                ent["kind"], describe)
+        n_exp = int(np.count_nonzero(must))
+        if n_exp and n_exp < must.size:
+            ctx.nontrivial = True
+
+
+@st.composite
+def index_history_cases(draw):
+    radius = draw(radius_specs())
+    r_km = float(radius_km_exact(radius))
+    cloud = draw(P.clouds(r_km, None, n_sets=2, metric="chord",
+                          allow_nan=False, allow_far=False,
+                          sizes=[(2, 16), (1, 6)]))
+    b, q0 = cloud["sets"]
+    n = len(b["lat"])
+    psets = [b]
+    for _ in range(draw(st.integers(1, 2))):
+        how = draw(st.sampled_from(["shifted", "shifted", "permuted", "same",
+                                    "shorter"]))
+        if how == "shifted":
+            psets.append(P.shifted(b, draw(st.sampled_from(
+                [0.5, 1 - 1e-3, 1 + 1e-3, 3.0, 10.0])) * r_km, draw(
+                    st.sampled_from(P.BEARINGS + [45.0])), 0))
+        elif how == "permuted":
+            pm = draw(P.permutations_of(n))
+            psets.append({k: [v[i] for i in pm] for k, v in b.items()})
+        elif how == "same":
+            psets.append(b)
+        else:
+            m = draw(st.integers(1, n))
+            psets.append({k: v[:m] for k, v in b.items()})
+    indexes = []
+    for ps in psets:
+        cfg = draw(configs(len(ps["lat"]), radius))
+        if cfg["shuffle"]["mode"] == "off" and draw(st.booleans()):
+            cfg["shuffle"] = {"mode": "perm", "perm": draw(
+                P.permutations_of(len(ps["lat"])))}
+        indexes.append({"lat": ps["lat"], "lon": ps["lon"], "config": cfg})
+    queries = [q0, {"lat": b["lat"], "lon": b["lon"]}]
+    if draw(st.booleans()):
+        queries.append(P.shifted(q0, r_km * 0.5, 90.0, 0))
+    order = draw(st.permutations(range(len(indexes))))
+    ops = [{"op": "build", "i": i} for i in order]
+    for _ in range(draw(st.integers(2, 6))):
+        i = draw(st.integers(0, len(indexes) - 1))
+        if draw(st.sampled_from([False] * 5 + [True])):
+            ops.append({"op": "build", "i": i})
+        else:
+            ops.append({
+                "op": "query", "i": i,
+                "q": draw(st.integers(0, len(queries) - 1)),
+                "radius": draw(st.one_of(st.just(radius), st.just(radius),
+                                         respell(radius))),
+                "return_distance": draw(st.sampled_from(
+                    [True] * 4 + [False]))})
+    return {"indexes": indexes,
+            "queries": [{"lat": q["lat"], "lon": q["lon"]} for q in queries],
+            "ops": ops}
+
+
 def suites(tier):
     return [
         Suite("query", check_query, strategy=query_cases(tier),
@@ -649,5 +856,10 @@ def suites(tier):
         Suite("meridional", check_query, strategy=meridional_cases(),
               examples={"quick": 40, "thorough": 1000}),
         Suite("query-histories", check_history, strategy=history_cases(),
+              examples={"quick": 60, "thorough": 1500}),
+        Suite("integer-grid", check_query, strategy=integer_grid_cases(),
+              examples={"quick": 50, "thorough": 1200}),
+        Suite("index-histories", check_index_history,
+              strategy=index_history_cases(),
               examples={"quick": 60, "thorough": 1500}),
     ]
